@@ -502,15 +502,15 @@ def gthread_queue_probe(threads=1, max_requests=2, nclients=6, delay=0.6):
 
 
 
-def real_inflight_probe(cls, slow_on_second, max_requests=2, d=2.5):
+def real_inflight_probe(cls, slow_on_second, max_requests=2, d=2.5, timeout=30):
     """A REAL master with one worker of class cls on two listeners: a request that takes d seconds is in flight on one listener
     while short requests on the OTHER listener take the worker to max_requests.  The worker stops accepting, but the request in
     flight must be answered in full (graceful_timeout 8 s) before it exits; afterwards a new worker serves."""
     import lib_arb2_real as R
     import socket as _s
-    srv = R.Server(worker_class=cls, workers=1, graceful=8, bind="unix", keepalive=0, second_bind=True,
+    srv = R.Server(worker_class=cls, workers=1, graceful=8, bind="unix", keepalive=0, second_bind=True, timeout=timeout,
                    extra={"max_requests": max_requests})
-    out = {"cls": cls, "slow_on_second": slow_on_second}
+    out = {"cls": cls, "slow_on_second": slow_on_second, "timeout": timeout, "d": d}
     try:
         srv.start()
         first = sorted(srv.children())
@@ -769,6 +769,9 @@ def run(ctx):
     # REAL masters, two listeners, a request in flight on one of them while the other takes the worker to the limit
     combos2 = ([("gevent", False), ("eventlet", True), ("gthread", False)] if quick else
                [(c, b) for c in ("gevent", "eventlet", "gthread") for b in (False, True)])
+    # ... and the same with a request in flight that lasts LONGER than `timeout` (2 s against 4.5 s; graceful_timeout 8 s): for
+    # these worker classes the heartbeat does not depend on how long a request takes - while the worker drains, too
+    combos2 += [(c, False, 2, 4.5, 2) for c in ("gevent", "eventlet", "gthread")]
     results2 = [None] * len(combos2)
 
     def work2(i):
@@ -778,19 +781,27 @@ def run(ctx):
         t.start()
     for t in ths:
         t.join()
-    for i, (cls2, sec) in enumerate(combos2):
+    for i, combo in enumerate(combos2):
+        cls2, sec = combo[0], combo[1]
+        long_req = len(combo) > 2
         res = results2[i]
         if res is None or "harness_error" in res:
-            res = real_inflight_probe(cls2, sec)
-        ctx.count_case(("real-inflight", cls2, sec), True)
-        ctx.hist("real_inflight", "%s / slow request on the %s listener" % (cls2, "second" if sec else "first"))
+            res = real_inflight_probe(*combo)
+        ctx.count_case(("real-inflight",) + tuple(combo), True)
+        ctx.hist("real_inflight", "%s / slow request on the %s listener%s" % (cls2, "second" if sec else "first",
+                                                                               " / longer than timeout" if long_req else ""))
         ctx.extra.setdefault("real_inflight", []).append({k: v for k, v in res.items()})
         for f in judge_real_inflight(res)[:2]:
             if f.startswith("harness:"):
                 ctx.broken.append("real in-flight probe %s could not be carried out: %s" % (cls2, f[:500]))
+            elif long_req and cls2 in ("gthread", "eventlet") and "in flight" in f:
+                ctx.violation("real %s worker, max_requests=2, timeout=2: %s - the draining worker no longer notifies and the arbiter "
+                              "kills it after `timeout` (WORKER TIMEOUT)" % (cls2, f),
+                              {"kind": "real-inflight", "cls": cls2, "slow_on_second": sec, "args": list(combo)},
+                              key="drain-without-heartbeat")
             else:
-                ctx.violation("real %s worker, two listeners, max_requests=2: %s" % (cls2, f),
-                              {"kind": "real-inflight", "cls": cls2, "slow_on_second": sec})
+                ctx.violation("real %s worker, two listeners, max_requests=2%s: %s" % (cls2, ", timeout=2 < request" if long_req else "", f),
+                              {"kind": "real-inflight", "cls": cls2, "slow_on_second": sec, "args": list(combo)})
     # the real accept loops of the sync worker with clients already queued on one / several listeners
     combos = [(1, 1), (2, 1), (2, 2), (1, 3), (3, 2)] if quick else [(m, n) for m in (1, 2, 3, 5) for n in (1, 2, 3)]
     for mr, nl in combos:
@@ -855,7 +866,7 @@ def replay(rep):
         print("failures:", fs)
         return 1 if fs else 0
     if rep.get("kind") == "real-inflight":
-        res = real_inflight_probe(rep["cls"], rep["slow_on_second"])
+        res = real_inflight_probe(*rep["args"]) if rep.get("args") else real_inflight_probe(rep["cls"], rep["slow_on_second"])
         fs = judge_real_inflight(res)
         print(res)
         print("failures:", fs)
